@@ -121,8 +121,86 @@ def portModV (ver ty ln xid no : Nat) (pad hw pad2 : Bytes) (cfg mask adv : Nat)
   .obj "PortMod" [.obj "Header" [.num ver, .num ty, .num ln, .num xid], .num no, .bytes pad, .bytes hw, .bytes pad2, .num cfg, .num mask,
     .num adv, .bytes pad3]
 
-/-- PortMod (40 bytes), decoded into `NewPortMod(p0)` (any p0) — a receiver with an allocated 6-byte HWAddr and pads, which the
-    decoder's offsets depend on.  `MarshalBinary` stores 40 in Header.Length. -/
+theorem copyAdv_zeros (k a : Nat) (h : k ≤ a) : (pCopyAdv (zeros k) a).bytes = zeros a := by
+  simp only [pCopyAdv, Piece.bytes, zeros, List.take_replicate, List.length_replicate, List.replicate_append_replicate]
+  congr 1; omega
+
+theorem copyInto_zeros_le (pad : Bytes) (n : Nat) (tail : Bytes) (h : pad.length ≤ n) :
+    copyInto pad (zeros n ++ tail) = zeros pad.length := by
+  simp only [copyInto, zeros, List.take_append, List.take_replicate, List.length_replicate, List.length_append]
+  have h1 : pad.length - n = 0 := by omega
+  have h2 : List.drop (n + tail.length) pad = [] := List.drop_eq_nil_of_le (by omega)
+  rw [h1, h2, Nat.min_eq_left h]
+  simp
+
+/-- PortMod (40 bytes) with unexported pads that are nil or zero bytes: `MarshalBinary` stores 40 in Header.Length and writes
+    header, port, 4 pad bytes, the 6-byte address, 2 pad bytes, config / mask / advertise, 4 pad bytes. -/
+theorem portMod_marshal (ver ty xid no : Nat) (hw : Bytes) (cfg mask adv k1 k2 k3 : Nat) (hhw : hw.length = 6)
+    (hk1 : k1 ≤ 4) (hk2 : k2 ≤ 2) (hk3 : k3 ≤ 4) (ln0 : Nat) :
+    PortMod.marshalM (portModV ver ty ln0 xid no (zeros k1) hw (zeros k2) cfg mask adv (zeros k3)) =
+      .ok ([n8 ver, n8 ty] ++ be16 (n16 40) ++ be32 (n32 xid) ++ be32 (n32 no) ++ zeros 4 ++ hw ++ zeros 2 ++ be32 (n32 cfg)
+          ++ be32 (n32 mask) ++ be32 (n32 adv) ++ zeros 4,
+        portModV ver ty 40 xid no (zeros k1) hw (zeros k2) cfg mask adv (zeros k3)) := by
+  obtain ⟨a0, a1, a2, a3, a4, a5, rfl⟩ := list_len6 hw hhw
+  unfold PortMod.marshalM
+  simp only [portModV, PortMod.lenM, same, Res.bind_ok, Header.setLength, Header.bytes]
+  have hp : piecesLen [pU32 no, pCopyAdv (zeros k1) 4, pCopyAdv [a0, a1, a2, a3, a4, a5] Gen.openflow13.ETH_ALEN, pCopyAdv (zeros k2) 2,
+      pU32 cfg, pU32 mask, pU32 adv, pCopyAdv (zeros k3) 4] = 32 := rfl
+  rw [fill_eq 32 _ (by intro p hp; simp at hp; rcases hp with rfl | rfl | rfl | rfl | rfl | rfl | rfl | rfl <;>
+    first | trivial | exact (Nat.le_of_eq rfl) | (simp only [pCopyAdv, Piece.Tight, zeros_length]; assumption)) hp]
+  simp only [piecesBytes, List.map_cons, List.map_nil, List.flatten_cons, List.flatten_nil, List.append_nil,
+    copyAdv_zeros k1 4 hk1, copyAdv_zeros k2 2 hk2, copyAdv_zeros k3 4 hk3, Res.bind_ok]
+  rfl
+
+/-- PortMod.UnmarshalBinary into ANY PortMod receiver whose unexported pads hold at most 4 / 2 / 4 bytes (nil in `new(PortMod)`,
+    4 / 2 / 4 zero bytes in `NewPortMod(p0)`), whatever its HWAddr (a receiver address that is not 6 bytes long is replaced by a
+    fresh 6-byte one): all exported fields come back, the pads keep their lengths and hold zeros. -/
+theorem portMod_decode (ver ty xid no : Nat) (hw : Bytes) (cfg mask adv : Nat) (hver : ver < 256) (hty : ty < 256) (hxid : xid < 4294967296)
+    (hno : no < 4294967296) (hhw : hw.length = 6) (hcfg : cfg < 4294967296) (hmask : mask < 4294967296) (hadv : adv < 4294967296)
+    (h0 x y z w : V) (p1 hw0 p2 p3 : Bytes) (hp1 : p1.length ≤ 4) (hp2 : p2.length ≤ 2) (hp3 : p3.length ≤ 4)
+    (data : Slice) (tail : Bytes) (hd : data.WF)
+    (hb : data.bytes = [n8 ver, n8 ty] ++ be16 (n16 40) ++ be32 (n32 xid) ++ be32 (n32 no) ++ zeros 4 ++ hw ++ zeros 2 ++ be32 (n32 cfg)
+      ++ be32 (n32 mask) ++ be32 (n32 adv) ++ zeros 4 ++ tail) :
+    PortMod.unmarshal (.obj "PortMod" [h0, x, .bytes p1, .bytes hw0, .bytes p2, y, z, w, .bytes p3]) data
+      = .ok (portModV ver ty 40 xid no (zeros p1.length) hw (zeros p2.length) cfg mask adv (zeros p3.length)) := by
+  obtain ⟨a0, a1, a2, a3, a4, a5, rfl⟩ := list_len6 hw hhw
+  have hlen := Slice.len_ge_of_bytes data _ _ hb
+  have h40 : ([n8 ver, n8 ty] ++ be16 (n16 40) ++ be32 (n32 xid) ++ be32 (n32 no) ++ zeros 4 ++ [a0, a1, a2, a3, a4, a5] ++ zeros 2
+      ++ be32 (n32 cfg) ++ be32 (n32 mask) ++ be32 (n32 adv) ++ zeros 4).length = 40 := rfl
+  rw [h40] at hlen
+  have hb' : data.bytes = ([n8 ver, n8 ty] ++ be16 (n16 40) ++ be32 (n32 xid)) ++ (be32 (n32 no) ++ (zeros 4 ++ ([a0, a1, a2, a3, a4, a5] ++
+      (zeros 2 ++ (be32 (n32 cfg) ++ (be32 (n32 mask) ++ (be32 (n32 adv) ++ (zeros 4 ++ tail)))))))) := by
+    rw [hb]; simp only [List.append_assoc]
+  obtain ⟨_, _, hhdr⟩ := header_roundtrip ver ty 40 xid hver hty (by decide) hxid
+  have hh := hhdr h0 data _ hd hb'
+  have e8 : rd32 (data.bytes.drop 8) = some (n32 no) := by rw [hb']; exact rd32_be32 _ _
+  have e24 : rd32 (data.bytes.drop 24) = some (n32 cfg) := by rw [hb']; exact rd32_be32 _ _
+  have e28 : rd32 (data.bytes.drop 28) = some (n32 mask) := by rw [hb']; exact rd32_be32 _ _
+  have e32 : rd32 (data.bytes.drop 32) = some (n32 adv) := by rw [hb']; exact rd32_be32 _ _
+  obtain ⟨s1, hs11, hs12, _⟩ := Slice.sliceR_bytes data hd 12 16 (by omega) (by omega)
+  obtain ⟨s2, hs21, hs22, _⟩ := Slice.sliceR_bytes data hd 16 22 (by omega) (by omega)
+  obtain ⟨s3, hs31, hs32, _⟩ := Slice.sliceR_bytes data hd 22 24 (by omega) (by omega)
+  obtain ⟨s4, hs41, hs42, _⟩ := Slice.fromR_bytes data 36 (by omega)
+  have b1 : s1.bytes = zeros 4 ++ [] := by rw [hs12, hb']; rfl
+  have b2 : s2.bytes = [a0, a1, a2, a3, a4, a5] := by rw [hs22, hb']; rfl
+  have b3 : s3.bytes = zeros 2 ++ [] := by rw [hs32, hb']; rfl
+  have b4 : s4.bytes = zeros 4 ++ tail := by rw [hs42, hb']; rfl
+  have hhwr : copyInto (if hw0.length ≠ Gen.openflow13.ETH_ALEN then zeros Gen.openflow13.ETH_ALEN else hw0) [a0, a1, a2, a3, a4, a5]
+      = [a0, a1, a2, a3, a4, a5] := by
+    have := copyInto_prefix (if hw0.length ≠ Gen.openflow13.ETH_ALEN then zeros Gen.openflow13.ETH_ALEN else hw0)
+      [a0, a1, a2, a3, a4, a5] [] (by split <;> rename_i hc <;> first | rfl | (simp only [ne_eq, Decidable.not_not] at hc; rw [hc]; rfl))
+    rw [List.append_nil] at this
+    exact this
+  have hE : Gen.openflow13.ETH_ALEN = 6 := rfl
+  unfold PortMod.unmarshal
+  simp only [msgTryU, hh, Res.bind_ok, Slice.u32From_eq, e8, e24, e28, e32, Res.ofOption, hE, Nat.reduceAdd, hs11, hs21, hs31, hs41,
+    Bool.false_eq_true, if_false, Res.pure_eq, u32_n32 no hno, u32_n32 cfg hcfg, u32_n32 mask hmask, u32_n32 adv hadv]
+  rw [hE] at hhwr
+  rw [b1, b2, b3, b4, copyInto_zeros_le p1 4 [] hp1, copyInto_zeros_le p2 2 [] hp2, copyInto_zeros_le p3 4 tail hp3, hhwr]
+  rfl
+
+/-- PortMod (40 bytes), decoded into `NewPortMod(p0)` (any p0) — a receiver with an allocated 6-byte HWAddr and pads.
+    `MarshalBinary` stores 40 in Header.Length. -/
 theorem portMod_rt (ver ty xid no : Nat) (hw : Bytes) (cfg mask adv : Nat) (hver : ver < 256) (hty : ty < 256) (hxid : xid < 4294967296)
     (hno : no < 4294967296) (hhw : hw.length = 6) (hcfg : cfg < 4294967296) (hmask : mask < 4294967296) (hadv : adv < 4294967296) :
     let v' := portModV ver ty 40 xid no (zeros 4) hw (zeros 2) cfg mask adv (zeros 4)
@@ -132,52 +210,26 @@ theorem portMod_rt (ver ty xid no : Nat) (hw : Bytes) (cfg mask adv : Nat) (hver
     bs.length = 40 ∧
     ∀ (p0 : Nat) (data : Slice) (tail : Bytes), data.WF → data.bytes = bs ++ tail → PortMod.unmarshal (PortMod.new p0) data = .ok v' := by
   intro v' bs
-  obtain ⟨a0, a1, a2, a3, a4, a5, rfl⟩ := list_len6 hw hhw
-  refine ⟨fun ln0 => ?_, rfl, ?_⟩
-  · unfold PortMod.marshalM
-    simp only [portModV, PortMod.lenM, same, Res.bind_ok, Header.setLength, Header.bytes]
-    have hp : piecesLen [pU32 no, pCopyAdv (zeros 4) 4, pCopyAdv [a0, a1, a2, a3, a4, a5] Gen.openflow13.ETH_ALEN, pCopyAdv (zeros 2) 2,
-        pU32 cfg, pU32 mask, pU32 adv, pCopyAdv (zeros 4) 4] = 32 := rfl
-    rw [fill_eq 32 _ (by intro p hp; simp at hp; rcases hp with rfl | rfl | rfl | rfl | rfl | rfl | rfl | rfl <;>
-      first | trivial | exact (Nat.le_of_eq rfl)) hp]
-    rfl
+  refine ⟨fun ln0 => portMod_marshal ver ty xid no hw cfg mask adv 4 2 4 hhw (by omega) (by omega) (by omega) ln0, ?_, ?_⟩
+  · simp only [bs, List.length_append, be16_length, be32_length, zeros_length, hhw, List.length_cons, List.length_nil]
   · intro p0 data tail hd hb
-    have hlen := Slice.len_ge_of_bytes data _ _ hb
-    have h40 : bs.length = 40 := rfl
-    have hb' : data.bytes = ([n8 ver, n8 ty] ++ be16 (n16 40) ++ be32 (n32 xid)) ++ (be32 (n32 no) ++ (zeros 4 ++ ([a0, a1, a2, a3, a4, a5] ++
-        (zeros 2 ++ (be32 (n32 cfg) ++ (be32 (n32 mask) ++ (be32 (n32 adv) ++ (zeros 4 ++ tail)))))))) := by
-      rw [hb]; simp only [bs, List.append_assoc]
-    obtain ⟨_, _, hhdr⟩ := header_roundtrip ver ty 40 xid hver hty (by decide) hxid
-    have hh := hhdr (msgOfpHeader Gen.openflow13.Type_PortMod) data _ hd hb'
-    have e8 : rd32 (data.bytes.drop 8) = some (n32 no) := by rw [hb']; exact rd32_be32 _ _
-    have e24 : rd32 (data.bytes.drop 24) = some (n32 cfg) := by rw [hb']; exact rd32_be32 _ _
-    have e28 : rd32 (data.bytes.drop 28) = some (n32 mask) := by rw [hb']; exact rd32_be32 _ _
-    have e32 : rd32 (data.bytes.drop 32) = some (n32 adv) := by rw [hb']; exact rd32_be32 _ _
-    obtain ⟨s1, hs11, hs12, _⟩ := Slice.sliceR_bytes data hd 12 16 (by omega) (by omega)
-    obtain ⟨s2, hs21, hs22, _⟩ := Slice.fromR_bytes data 16 (by omega)
-    obtain ⟨s3, hs31, hs32, _⟩ := Slice.sliceR_bytes data hd 22 24 (by omega) (by omega)
-    obtain ⟨s4, hs41, hs42, _⟩ := Slice.fromR_bytes data 36 (by omega)
-    have b1 : s1.bytes = zeros 4 := by rw [hs12, hb']; rfl
-    have b2 : s2.bytes = [a0, a1, a2, a3, a4, a5] ++ (zeros 2 ++ (be32 (n32 cfg) ++ (be32 (n32 mask) ++ (be32 (n32 adv) ++ (zeros 4 ++ tail))))) := by
-      rw [hs22, hb']; rfl
-    have b3 : s3.bytes = zeros 2 := by rw [hs32, hb']; rfl
-    have b4 : s4.bytes = zeros 4 ++ tail := by rw [hs42, hb']; rfl
-    unfold PortMod.unmarshal PortMod.new
-    have h6 : (zeros Gen.openflow13.ETH_ALEN).length = 6 := rfl
-    simp only [msgTryU, hh, Res.bind_ok, Slice.u32From_eq, e8, e24, e28, e32, Res.ofOption, h6, Nat.reduceAdd, hs11, hs21, hs31, hs41,
-      b1, b2, b3, b4, Bool.false_eq_true, if_false, Res.pure_eq, u32_n32 no hno, u32_n32 cfg hcfg, u32_n32 mask hmask, u32_n32 adv hadv]
-    have c1 : copyInto (zeros 4) (zeros 4) = zeros 4 := rfl
-    have c3 : copyInto (zeros 2) (zeros 2) = zeros 2 := rfl
-    rw [c1, c3, copyInto_prefix (zeros Gen.openflow13.ETH_ALEN) [a0, a1, a2, a3, a4, a5] _ rfl, copyInto_prefix (zeros 4) (zeros 4) tail rfl]
-    rfl
+    exact portMod_decode ver ty xid no hw cfg mask adv hver hty hxid hno hhw hcfg hmask hadv _ _ _ _ _ (zeros 4)
+      (zeros Gen.openflow13.ETH_ALEN) (zeros 2) (zeros 4) (by decide) (by decide) (by decide) data tail hd hb
 
-/-- COUNTEREXAMPLE: the same bytes decoded into `new(PortMod)` (nil HWAddr and pads).  The decoder advances by `len(p.HWAddr)` = 0:
-    HWAddr stays empty and Config / Mask / Advertise are read 6 bytes too early. -/
-theorem portMod_zero_receiver_counterexample :
-    let v := portModV 4 16 40 7 3 (zeros 4) [1, 2, 3, 4, 5, 6] (zeros 2) 1 1 0 (zeros 4)
-    ∃ bs, PortMod.marshalM v = .ok (bs, v) ∧
-      PortMod.unmarshal PortMod.zero (Slice.exact bs)
-        = .ok (portModV 4 16 40 7 3 [] [] [] 50595078 0 65536 []) :=
-  ⟨_, rfl, rfl⟩
+/-- PortMod decoded into `new(PortMod)` (nil HWAddr and pads; fixed: the decoder used to advance by `len(p.HWAddr)` = 0 and read
+    Config / Mask / Advertise 6 bytes too early): every exported field comes back, the unexported pads stay nil, and the
+    result encodes to the same 40 bytes. -/
+theorem portMod_rt_zero (ver ty xid no : Nat) (hw : Bytes) (cfg mask adv : Nat) (hver : ver < 256) (hty : ty < 256) (hxid : xid < 4294967296)
+    (hno : no < 4294967296) (hhw : hw.length = 6) (hcfg : cfg < 4294967296) (hmask : mask < 4294967296) (hadv : adv < 4294967296) :
+    let v0 := portModV ver ty 40 xid no [] hw [] cfg mask adv []
+    let bs := [n8 ver, n8 ty] ++ be16 (n16 40) ++ be32 (n32 xid) ++ be32 (n32 no) ++ zeros 4 ++ hw ++ zeros 2 ++ be32 (n32 cfg)
+      ++ be32 (n32 mask) ++ be32 (n32 adv) ++ zeros 4
+    (∀ ln0, PortMod.marshalM (portModV ver ty ln0 xid no [] hw [] cfg mask adv []) = .ok (bs, v0)) ∧
+    ∀ (data : Slice) (tail : Bytes), data.WF → data.bytes = bs ++ tail → PortMod.unmarshal PortMod.zero data = .ok v0 := by
+  intro v0 bs
+  refine ⟨fun ln0 => portMod_marshal ver ty xid no hw cfg mask adv 0 0 0 hhw (by omega) (by omega) (by omega) ln0, ?_⟩
+  intro data tail hd hb
+  exact portMod_decode ver ty xid no hw cfg mask adv hver hty hxid hno hhw hcfg hmask hadv _ _ _ _ _ [] [] [] []
+    (by decide) (by decide) (by decide) data tail hd hb
 
 end OFV.RT2
